@@ -544,6 +544,12 @@ func (g *gen) statusy(i int, seed uint64) *scenario {
 		sc.Hook2 = &h2
 		sc.Features = append(sc.Features, "status-shrinks")
 	}
+	if r.Chance(1, 5) {
+		// the parent arrives with a status from an earlier life (restored from a backup, re-applied with its old
+		// status): generation 1 again, an observedGeneration far ahead
+		sc.Parent["status"] = J{"observedGeneration": int64(7 + r.Intn(90)), "phase": "Old"}
+		sc.Features = append(sc.Features, "status-from-an-earlier-life")
+	}
 	plain := sc.Ctl.ParentNamespaced && r.Chance(1, 4)
 	if plain {
 		// a parent kind without the status subresource: the status goes out with a whole-object update
